@@ -355,6 +355,11 @@ def run(tape, prop, tier):
             if exit_path == "cancel":
                 # only while run() is before its cleanup phase: finalize must not have started
                 if True:
+                    if d.stopped:
+                        # the run is already winding down by itself (sources exhausted: the dispatch loop has called
+                        # stop()); same situation as stop_then_cancel, where run() may return or raise the cancellation
+                        trig("stop")
+                        res.probes["cancel_lands_after_self_stop"] += 1
                     trig("cancel")
                     S["cancel_at"] = loop.time()
                     res.faults["external_cancellation"] += 1
